@@ -291,7 +291,76 @@ func c18Families(thorough bool) []*engine.IFamily {
 			}
 			return r
 		}}
-	fams := []*engine.IFamily{cmds, values}
+	// time periods whose end lies anywhere between a second and nine years from the clock, in both directions: the
+	// re-expressed relative end time has to denote the same instant (to the second) after encode and decode
+	periods := &engine.IFamily{Name: "time-periods-near-and-far", Chunks: 1,
+		Rule: "TimePeriodType without start time, end time = clock + d (absolute, as the stack holds every received relative end time) and end time given as the relative duration d, for d over {1 s, 59 s, 1 min, 1 h, 23 h 59 min 59 s, every whole number of days 1..400, 500..3200 in steps of 100} in the future and in the past, and the same with a start time; encoded and decoded under a frozen clock; the decoded end time denotes the same instant to the second (durations of 3277 days and more are C19's recorded finding and excluded); non-trivial: all",
+		Run: func(int) engine.IResult {
+			var r engine.IResult
+			now := staticNow
+			vtime.StaticNow = &now
+			defer func() { vtime.StaticNow = nil }()
+			ds := []time.Duration{time.Second, 59 * time.Second, time.Minute, time.Hour, 24*time.Hour - time.Second}
+			for d := 1; d <= 400; d++ {
+				ds = append(ds, time.Duration(d)*24*time.Hour)
+			}
+			for d := 500; d <= 3200; d += 100 {
+				ds = append(ds, time.Duration(d)*24*time.Hour+90*time.Minute)
+			}
+			fail := func(msg, detail, in string) {
+				r.NFails++
+				if len(r.Fails) < 40 {
+					r.Fails = append(r.Fails, engine.IFail{Key: msg, Msg: detail, Input: in})
+				}
+			}
+			for _, d0 := range ds {
+				for _, d := range []time.Duration{d0, -d0} {
+					end := now.Add(d)
+					forms := map[string]*model.TimePeriodType{
+						"absolute end": {EndTime: model.NewAbsoluteOrRelativeTimeTypeFromTime(end)},
+						"start and end": {StartTime: model.NewAbsoluteOrRelativeTimeTypeFromTime(now.Add(-time.Hour)), EndTime: model.NewAbsoluteOrRelativeTimeTypeFromTime(end)},
+					}
+					if d > 0 {
+						forms["relative end"] = &model.TimePeriodType{EndTime: model.NewAbsoluteOrRelativeTimeTypeFromDuration(d)}
+					}
+					for name, tp := range forms {
+						r.Evals++
+						r.Nontrivial++
+						b, err := json.Marshal(tp)
+						if err != nil {
+							fail("a time period cannot be encoded | form="+name, err.Error(), d.String())
+							continue
+						}
+						var back model.TimePeriodType
+						if err := json.Unmarshal(b, &back); err != nil {
+							fail("an encoded time period cannot be decoded | form="+name, err.Error()+" "+string(b), d.String())
+							continue
+						}
+						if back.EndTime == nil {
+							fail("the end time of a time period is lost | form="+name, string(b), d.String())
+							continue
+						}
+						var got time.Time
+						if t, err := back.EndTime.GetTime(); err == nil {
+							got = t
+						} else if dd, err := back.EndTime.GetTimeDuration(); err == nil {
+							got = now.Add(dd)
+						} else {
+							fail("the decoded end time of a time period is neither a time nor a duration | form="+name, string(b), d.String())
+							continue
+						}
+						if diff := got.Sub(end); diff > time.Second || diff < -time.Second {
+							fail("the end time of a time period denotes another instant after encode and decode | form="+name, fmt.Sprintf("d=%v encoded=%s decoded end=%v expected=%v (off by %v)", d, b, got.UTC(), end.UTC(), diff), d.String())
+						}
+						if len(r.Samples) < 2 && d0 == 45*24*time.Hour {
+							r.Samples = append(r.Samples, name+": "+string(b))
+						}
+					}
+				}
+			}
+			return r
+		}}
+	fams := []*engine.IFamily{cmds, values, periods}
 	// the receiving side of the same stack: the commands of the first family, delivered as datagrams of a peer, are
 	// recognised by message handling (a read is answered with the reply of that function, a notify or write with
 	// exactly one result when an acknowledgement is requested) — generator and response oracle shared with C01
